@@ -1,7 +1,7 @@
 #!/bin/bash
 # usage: verify_mutant.sh <id>   – confirms a seeded change from /tmp/mut/<id> in a fresh scratch worktree:
 # patch applies, module builds, suite passes with it, demo fails with it and passes without it.
-id="$1"; src="/tmp/mut/$id"; wt="/tmp/mutv/$id"
+id="$1"; src="${SRC:-/tmp/mut/$id}"; wt="/tmp/mutv/$id"
 export GOFLAGS=-mod=mod GOPROXY=off GOSUMDB=off GOTOOLCHAIN=local
 rm -rf "$wt"; git -C /repo worktree prune; mkdir -p /tmp/mutv
 git -C /repo worktree add -q --detach "$wt" HEAD || exit 2
